@@ -32,6 +32,7 @@ def units(tier, seed):
         # every 8th code of the complete 5-node space (dense graphs, where Meek rules 3 and 4 fire): a fixed stride, not a sample
         out += [{"stage": "stride5", "p": 5, "codes": list(range(lo, hi, 8))} for lo, hi in _g.chunks(0, 4 ** 10, 64)]
     out += [{"stage": "wide", "p": _g.WIDE_P, "codes": c} for c in split_list(_g.wide_sparse_codes("pdag"), 16)]
+    out.append({"stage": "big", "p": _g.BIG_P, "codes": _g.big_codes("pdag")})      # 70 nodes, edges on node indices >= 64
     if tier == "thorough":
         out += _g.pdag_units("pdag", 5, 256)
         codes = _g.sparse_codes(6, 4, (1, 2, 3))
@@ -39,14 +40,18 @@ def units(tier, seed):
     return out
 
 
-def check_pdag(p, code):
+WLABS = _g.WPDAG_LABS
+weighted_pdag = _g.weighted_pdag
+
+
+def check_pdag(p, code, lab="pdag"):
     ch, und = G.decode(p, code)
     if not G.is_acyclic(p, ch):
         return None
     fails = []
     E = _g.exts(p, ch, und)
     Eset = set(G.pattern_of_dag(p, g) for g in E)
-    P = _g.pdag_matrix(p, ch, und)
+    P = _g.pdag_matrix(p, ch, und) if lab == "pdag" else weighted_pdag(p, ch, und, lab)
     Pl = P.tolist()
     # pdag_to_dag
     r = _g.call(U.pdag_to_dag, P.copy())
@@ -64,8 +69,8 @@ def check_pdag(p, code):
     r = _g.call(U.has_consistent_extension, P.copy())
     if r[0] != "ok" or bool(r[1]) != bool(E):
         fails.append(("has_consistent_extension", "has_consistent_extension(%s) -> %r, brute force finds %d extension(s)" % (Pl, r[1:], len(E))))
-    # maximally_orient
-    if E:
+    # maximally_orient (0/1 matrices only: its weighted behaviour is documented nowhere)
+    if E and lab == "pdag":
         r = _g.call(U.maximally_orient, P.copy())
         if r[0] != "ok":
             fails.append(("maximally_orient:raises", "maximally_orient(%s) raised %s" % (Pl, r[2])))
@@ -86,8 +91,8 @@ def run_unit(unit):
     acc = Acc()
     p = unit["p"]
     codes = unit["codes"] if "codes" in unit else range(unit["lo"], unit["hi"])
-    for code in codes:
-        res = check_pdag(p, code)
+    for code, lab in ((c, l) for c in codes for l in (("pdag",) + (WLABS if p <= 4 and G.nedges(p, c) >= 1 else ()))):
+        res = check_pdag(p, code, lab)
         if res is None:
             continue
         fails, nE, has_und = res
@@ -103,12 +108,12 @@ def run_unit(unit):
             ch, und = G.decode(p, code)
             acc.sample({"pdag": G.to_matrix(p, ch, und), "n_extensions": nE})
         for sig, msg in fails:
-            acc.fail("pdag", {"p": p, "code": code}, sig, msg)
+            acc.fail("pdag", {"p": p, "code": code, "lab": lab}, sig, msg)
     return acc.out()
 
 
 def replay(kind, case):
-    res = check_pdag(case["p"], case["code"])
+    res = check_pdag(case["p"], case["code"], case.get("lab", "pdag"))
     return res[0] if res else []
 
 
@@ -116,7 +121,7 @@ def describe(tier, seed):
     return {
         "technique": "exhaustive enumeration of all PDAGs in a small scope, real code vs brute-force extension sets",
         "rule": "every base-4 edge code on p labelled nodes whose directed part is acyclic (p<=4 plus 5-node PDAGs with <=4 edges and every 8th code of the complete 5-node space quick; all of p=5 and "
-                "6-node PDAGs with <=4 edges thorough; every 10-node PDAG with <=2 edges); per PDAG: pdag_to_dag, has_consistent_extension and (when an extension exists) "
+                "6-node PDAGs with <=4 edges thorough; every 10-node PDAG with <=2 edges; 7 PDAGs on 70 nodes with edges on node indices >= 64); every PDAG on p<=4 nodes also as a float weight matrix under 3 weightings (outgoing / incoming directed weights that cancel, magnitudes down to 3e-310; asymmetric values on undirected edges) for pdag_to_dag / has_consistent_extension, which pdag_to_cpdag - documented for entries != 0 - runs through; per PDAG: pdag_to_dag, has_consistent_extension and (when an extension exists) "
                 "maximally_orient compared with the brute-force set of consistent extensions and its union graph; non-trivial = "
                 "has an undirected edge and >= 2 edges",
         "exhaustive": True,
